@@ -54,6 +54,9 @@ class P4:
 
 
 PCLS = {1: P1, 2: P2, 3: P3, 4: P4}
+# what the members do in modify_before_fit: add `delta` to their own state, in place, and return self
+# (the documented pattern); `log` = file to which every likelihood evaluation appends "j off"
+MOD = {"delta": 0, "log": None}
 af = conf = exc = None
 CombinedAnalysis = IndexedAnalysis = FreeParameterAnalysis = ModelAnalysis = CombinedModelAnalysis = None
 VA = None
@@ -74,6 +77,11 @@ def define_va():
             self.vfail2 = list(ad.get("vfail2", []))
             self.paths = paths
             self.scale = scale
+            self.off = 0
+
+        def modify_before_fit(self, paths, model):
+            self.off += MOD["delta"]
+            return self
 
         def values(self, instance):
             if self.paths is None:
@@ -86,7 +94,10 @@ def define_va():
                 raise exc.FitException("scripted failure of analysis %d" % self.j)
             if s and s[0] in self.fail2:
                 raise ValueError("scripted failure of analysis %d" % self.j)
-            return float(self.c + sum(a * b for a, b in zip(self.w, s))) / self.scale
+            if MOD["log"]:
+                with open(MOD["log"], "a") as f:
+                    f.write("%d %d\n" % (self.j, self.off))
+            return float(self.c + self.off + sum(a * b for a, b in zip(self.w, s))) / self.scale
 
         def save_attributes(self, paths):
             paths.save_json("tag_attr", {"j": self.j})
@@ -311,7 +322,7 @@ def written_folders(root, prefix):
     return sorted(out)
 
 
-def run_history(combined, ops, make_instance, tag, steered=True):
+def run_history(combined, ops, make_instance, tag, steered=True, model_arg=None):
     outs = []
     steer = None
     try:
@@ -325,6 +336,19 @@ def run_history(combined, ops, make_instance, tag, steered=True):
                 combined.n_cores = op[1]
                 if op[1] > 1:
                     steer = Steer(combined._analysis_pool, steered)
+                continue
+            if op[0] == "modify":
+                # what NonLinearSearch.fit does before any likelihood is evaluated
+                MOD["delta"] = op[1]
+                new = combined.modify_before_fit(af.DirectoryPaths(name="c15_%s_m%d" % (tag, k)), model_arg)
+                MOD["delta"] = 0
+                if new is not combined:
+                    if steer is not None:
+                        steer.close()
+                        steer = None
+                    combined = new
+                    if (combined.n_cores or 1) > 1 and combined._analysis_pool is not None:
+                        steer = Steer(combined._analysis_pool, steered)
                 continue
             inst = make_instance(op[1])
             if steer is not None and (op[0] == "map" or combined.n_cores > 1):
@@ -408,11 +432,9 @@ def run_case(c, idx):
             return {"struct": desc}
         if kind == "hist":
             out = {"struct": desc}
-            general["n_cores"] = original
             out.update(run_history(comb, c["ops"], lambda x: x, "h%d" % idx, not c.get("unsteered")))
             return out
         if kind == "idx":
-            general["n_cores"] = original
             out = {"struct": desc, "classes": [], "count": 0, "outs": [], "residue": []}
             if not well_indexed(desc):
                 return out
@@ -434,11 +456,22 @@ def run_case(c, idx):
             def make_instance(vals):
                 return modified.instance_for_arguments({p: float(vals[k]) for k, p in cls_prior.items()})
 
-            out.update(run_history(comb, c["ops"], make_instance, "i%d" % idx))
+            out.update(run_history(comb, c["ops"], make_instance, "i%d" % idx, True, modified))
             return out
         if kind == "fit":
             search = af.m.MockSearch(name="c15_fit_%d" % idx)
-            result = search.fit(default, comb)
+            MOD["delta"] = c.get("mod_delta", 0)
+            MOD["log"] = os.path.join(os.environ.get("VERIF_SCRATCH", "."), "c15_llf_%d.txt" % idx)
+            try:
+                result = search.fit(default, comb)
+            finally:
+                MOD["delta"] = 0
+                log, MOD["log"] = MOD["log"], None
+            seen = set()
+            if os.path.exists(log):
+                for ln in open(log):
+                    j, off = ln.split()
+                    seen.add((int(j), int(off)))
             fitted = search.paths.model
             subs = [fitted] if desc["kind"] == "plain" else list(fitted)
             numbering = {}
@@ -488,7 +521,7 @@ def run_case(c, idx):
                 else:
                     res.append([folder, names[nm]["j"], names[nm].get("got", -1)])
             return {"struct": desc, "attr": sorted(attr), "vbf": sorted(vbf), "res": sorted(res), "children": children,
-                    "n_models": len(subs)}
+                    "n_models": len(subs), "offs": sorted([j, off] for j, off in seen)}
         raise ValueError(kind)
     finally:
         general["n_cores"] = original
